@@ -51,6 +51,21 @@ class World:
             self.phase_log.append(("exception", type(e).__name__, str(e)[:80]))
             if isinstance(e, asyncio.CancelledError):
                 raise
+            self.n_faults_at_exc = len(self.faults)
+            if isinstance(e, asyncio.TimeoutError):
+                # a bring-up that timed out (damaged RST / RSTACK) is retried once on the same connection: with no further
+                # fault it must now go through, including a fresh RST
+                n_rst = sum(1 for t, d, b in self.sw.wire_log if d == "h2n" and b == RST_WIRE)
+                try:
+                    ez.stop_ezsp()
+                    await ez.startup_reset()
+                    await ez.write_config({})
+                    self.phase_log.append(("retry-ok", ez.ezsp_version, type(ez._protocol).VERSION,
+                                           sum(1 for t, d, b in self.sw.wire_log if d == "h2n" and b == RST_WIRE) - n_rst))
+                except BaseException as e2:  # noqa
+                    self.phase_log.append(("retry-exception", type(e2).__name__, str(e2)[:80]))
+                    if isinstance(e2, asyncio.CancelledError):
+                        raise
 
     def enabled(self):
         if self.ended:
@@ -127,7 +142,14 @@ class World:
             fault_on_reset = True
         if exc is not None:
             if exc[1] == "TimeoutError" and fault_on_reset:
-                return  # a lost / damaged RST or RSTACK may end the bring-up with a timeout
+                # a lost / damaged RST or RSTACK may end the bring-up with a timeout; the retry must then succeed
+                retry = next((x for x in log if isinstance(x, tuple) and x[0].startswith("retry")), None)
+                if retry is None or retry[0] != "retry-ok":
+                    if len(self.faults) == getattr(self, "n_faults_at_exc", 0) and self.p.get("spontaneous") != "late":   # no fault hit the retry itself
+                        self.viol.append(f"after a timed-out bring-up (faults {self.faults}) the retry on the same connection failed: {retry}")
+                elif retry[1] != V or retry[3] < 1:
+                    self.viol.append(f"retry after a timed-out bring-up: negotiated v{retry[1]} (NCP v{V}), {retry[3]} new RST frame(s) written")
+                return
             self.viol.append(f"bring-up raised {exc[1]}: {exc[2]} (NCP v{V}, faults {self.faults}, phases {[x for x in log if x != exc]})")
             return
         neg = [x for x in log if isinstance(x, tuple) and x[0] in ("negotiated", "renegotiated")]
